@@ -22,6 +22,7 @@ type Ctx struct {
 	Tier string
 
 	Overlay map[string][]byte
+	Fold    *FoldSet // registered helpers (see roles.go)
 	conn    map[string]*ana.Prog
 	roots   *Roots
 }
@@ -262,7 +263,10 @@ func (c *Ctx) include(label, other string, keep func(rule string) bool) {
 		return
 	}
 	sub := report.New(c.R.Dir, other, c.Tier, c.R.Seed)
-	sc := &Ctx{R: sub, P: c.P, Tier: c.Tier, Overlay: c.Overlay, conn: c.conn, roots: c.roots}
+	if c.Fold == nil {
+		c.Fold = &FoldSet{M: map[*ssa.Function]bool{}}
+	}
+	sc := &Ctx{R: sub, P: c.P, Tier: c.Tier, Overlay: c.Overlay, conn: c.conn, roots: c.roots, Fold: c.Fold}
 	f(sc)
 	if c.conn == nil {
 		c.conn = sc.conn
